@@ -228,7 +228,7 @@ def run(ctx):
             direct(ctx, ev, "utf-8")
             ctx.case((repr(ev), "utf-8"))
         ctx.sample("regression-seed", REGRESSION[0])
-    for i in range(ctx.scale(40_000, 1_400_000)):
+    for i in range(ctx.scale(40_000, 4_000_000)):
         cs = rng.choice(CHARSETS)
         ev = gen_event(rng, cs)
         direct(ctx, ev, cs)
@@ -240,7 +240,7 @@ def run(ctx):
     p.feed(": ping\n\n")
     p.end()
     assert p.events == [] and p.comments == 1
-    for i in range(ctx.scale(2500, 60_000)):
+    for i in range(ctx.scale(2500, 200_000)):
         cs = rng.choice(CHARSETS)
         n = rng.randrange(1, 7)
         events = [gen_event(rng, cs) for _ in range(n)]
@@ -262,7 +262,7 @@ def run(ctx):
         ctx.mon("event-object-reused")
         ctx.case(("shared", repr(events)))
     ctx.sample("same-dict-yielded-repeatedly", {"events": [{"data": "tick", "event": "t"}] * 3})
-    for i in range(ctx.scale(160, 4000)):
+    for i in range(ctx.scale(160, 12_000)):
         cs = rng.choice(CHARSETS)
         n = rng.randrange(1, 6)
         events = [gen_event(rng, cs) for _ in range(n)]
